@@ -7,7 +7,9 @@ import CookModel.Syntax.Blocks
   is closed while the item buffer holds a component (ast.rs:56) — is the value `panic := some _`.
   (The front-matter arm, which used to be a `todo!()`, pushes `Block::FrontMatter` since the repair.)
 
-  ADDED BY THE AUDIT OF C03/C04; not yet tied to the code by a driver operation.
+  ADDED BY THE AUDIT OF C03/C04.  Tied to the code by the driver operation `ast` (Driver/Tie.lean):
+  harness/src/props/c04.rs (`ast_case`, run on every input of C04 and C03) compares the rendering of
+  `buildAstOfInput` with that of `cooklang::ast::build_ast(PullParser::new(input, ext))`.
 -/
 namespace Cook
 
